@@ -582,8 +582,8 @@ H, X = ("halves", None), ("extreme", None)
 PLAN = {
     "quick": dict(exh=[("KVIndex_q1.cfg", [H]), ("KVIndex_q2.cfg", [H, B])],
                   sim=[("KVIndex_sim.cfg", 100, [H, X]), ("KVIndex_simnr.cfg", 60, [B])], volume=[120, 150]),
-    "thorough": dict(exh=[("KVIndex_t0.cfg", [H, X]), ("KVIndex_t1.cfg", [H]), ("KVIndex_t2.cfg", [H, B])],
-                     sim=[("KVIndex_simt.cfg", 600, [H, X]), ("KVIndex_simnr.cfg", 300, [B])], volume=[120, 150]),
+    "thorough": dict(exh=[("KVIndex_t0.cfg", [H]), ("KVIndex_q1.cfg", [X]), ("KVIndex_t1.cfg", [H]), ("KVIndex_t2.cfg", [H, B])],
+                     sim=[("KVIndex_simt.cfg", 400, [H, X]), ("KVIndex_simnr.cfg", 200, [B])], volume=[120, 150]),
 }
 
 ASSUMPTIONS = [
@@ -646,7 +646,9 @@ def _run(ctx):
                                    emb=emb, via=via)
             account(cfg, emb, r, dict(info, exhaustive=True, written_with=via or "AddDoc"))
         if len(ctx.cov["samples"]) < 3:
-            b = behaviours[len(behaviours) // 2]
+            # a sample with some content: most documents under registered fields after the last step
+            b = max(behaviours[:4000], key=lambda x: sum(len(set(v) & set(x.states[-1][1]["fields"]))
+                                                         for v in x.states[-1][1]["docs"].values()))
             ctx.sample(dict(cfg=cfg, steps=b.steps, observed=b.sched, live_after_last_step=b.states[-1][1],
                             expected_answers_after_last_step=answers[b.states[-1][0]]))
         del behaviours, answers, states
